@@ -34,7 +34,7 @@ OPS_EDITS = ["unknown-axis", "unknown-axis-added", "data-lacks-dim", "data-two-d
 UFUNC_EDITS = ["misplaced-input", "extra-input", "missing-input", "axis-entries-extra", "axis-entries-missing", "axis-arity", "unknown-axis",
                "boundary-unknown-scalar", "position-lacking"]
 TRANSFORM_EDITS = ["periodic-axis", "nonmonotonic-bins", "repeated-bins", "no-outer", "unknown-axis"]
-METRIC_EDITS = ["unknown-axis", "data-lacks-dim", "no-metric"]
+METRIC_EDITS = ["unknown-axis", "data-lacks-dim", "data-two-dims", "data-two-dims", "no-metric"]
 
 
 def gen_case(rng, i, tier):
@@ -345,6 +345,12 @@ def run_metric(ctx, desc):
         res = call_outcome(lambda: f(da, ["Qx_unknown"] if desc["pick"] % 2 else "Qx_unknown"))
     elif edit == "data-lacks-dim":
         res = call_outcome(lambda: f(da.isel({cm[a][frm]: 0}, drop=True), a))
+    elif edit == "data-two-dims":
+        others = [p for p in cm[a] if p != frm and ds.sizes[cm[a][p]] > 0]
+        if not others:
+            return
+        d2 = cm[a][others[desc["pick"] % len(others)]]
+        res = call_outcome(lambda: f(da.expand_dims({d2: ds.sizes[d2]}), a if desc["pick"] % 2 else opax))
     else:
         from xgcm import Grid
 
